@@ -193,6 +193,34 @@ class World:
             raise Violation("C12", "snapshot", "instruction.__eq__", "%s: equality with pristine twin %s -> %s" % (where, b["eq"], after["eq"]))
 
 
+def _scribble(program):
+    """Overwrite everything reachable from a *copy* of a program (instruction list, modes, parameter
+    containers and arrays in place, conditions).  If the copy shares mutable state with the original,
+    the original's snapshot changes."""
+    for ins_ in list(program.instructions):
+        try:
+            ins_._modes = tuple(reversed(ins_.modes)) + (99,)
+        except Exception:  # noqa: BLE001
+            pass
+        for k in list(ins_.params):
+            v = ins_.params[k]
+            if isinstance(v, np.ndarray):
+                if v.flags.writeable:
+                    v[...] = 0
+            elif isinstance(v, list):
+                v.clear()
+            elif isinstance(v, dict):
+                v.clear()
+            ins_.params[k] = None
+        ins_.params["scribbled"] = True
+        ins_._condition = None
+        if hasattr(ins_, "_unresolved_params") and isinstance(ins_._unresolved_params, dict):
+            ins_._unresolved_params.clear()
+        if hasattr(ins_, "_original_unresolved_params") and isinstance(ins_._original_unresolved_params, dict):
+            ins_._original_unresolved_params.clear()
+    program.instructions.clear()
+
+
 def _get_generators(state):
     """Positions of the generators a state carries with its Config (numpy Generator and, since the
     repair of the first C11 defect, a random.Random); they advance when the state is executed on."""
@@ -353,7 +381,9 @@ class History:
 
     def op_copy(self, w, op):
         c = w.program.copy()
-        return "ok:%d" % len(c.instructions)
+        n = len(c.instructions)
+        _scribble(c)  # what a user does with a copy: edit it; the original must not notice
+        return "ok:%d" % n
 
     def op_as_code(self, w, op):
         import piquasso as pq
@@ -386,7 +416,9 @@ class History:
         try:
             with pq.Program() as outer:
                 pq.Q() | w.program
-            return "ok:%d" % len(outer.instructions)
+            n = len(outer.instructions)
+            _scribble(outer)  # the outer program holds copies of the instructions
+            return "ok:%d" % n
         except Exception as e:  # noqa: BLE001
             return "raised:" + type(e).__name__
 
